@@ -1250,7 +1250,8 @@ def run_concurrent_close(cfg):
             events = [ev for i, ev in enumerate(events) if not (i > keep_until and ev[1] == cop)]
         last = max((i for i, ev in enumerate(events) if ev[1] == cop and ev[0] in ("ssl", "acq", "sent", "rcvd", "cancel", "send", "recv")),
                    default=-1)
-        events = [ev for i, ev in enumerate(events) if not (i > last and ev[0] in ("reof", "weof", "close") and ev[1] == cop)]
+        if err_at is None:
+            events = [ev for i, ev in enumerate(events) if not (i > last and ev[0] in ("reof", "weof", "close") and ev[1] == cop)]
         cev = [ev for ev in events if ev[1] == cop]
         if any(ev[0] == "cancel" for ev in cev):
             info["results"][cop] = [1, 12]
@@ -1264,7 +1265,20 @@ def run_concurrent_close(cfg):
             elif ssl_ev:
                 info["results"][cop] = [1, ssl_ev[-1][4]]
     events = [ev for ev in events if ev[0] != "close"]
-    labels, obs, results = c08._events_to_trace(events, info["results"])
+    # results at the level of the pumped call (what _retry_ssl_method returned / raised), for every call
+    pump_results = {}
+    for opid in {ev[1] for ev in events if ev[0] == "op"}:
+        oev = [ev for ev in events if ev[1] == opid and ev[0] != "op"]
+        ssl_ev = [ev for ev in oev if ev[0] == "ssl"]
+        if any(ev[0] == "cancel" for ev in oev):
+            pump_results[opid] = [1, 12]
+        elif any((ev[0] == "sent" and not ev[2]) or (ev[0] == "rcvd" and ev[2] < 0) for ev in oev):
+            pump_results[opid] = [1, 9]
+        elif ssl_ev and ssl_ev[-1][4] == K.O_OK and opid in info["results"]:
+            pump_results[opid] = [0, ssl_ev[-1][5]]
+        elif ssl_ev and ssl_ev[-1][4] not in (K.O_OK, K.O_WANT_READ, K.O_WANT_WRITE):
+            pump_results[opid] = [1, ssl_ev[-1][4]]
+    labels, obs, results = c08._events_to_trace(events, pump_results)
     tr = info.get("tr")
     info.update(delivered=tr.delivered if tr else 0, peer_total=peer.total_out, cn_seen=bool(peer.got_close_notify),
                 peer_done=bool(peer.handshaken and not peer.script), err=None)
